@@ -21,6 +21,19 @@ type Property struct {
 	Controls []string
 }
 
+// propImports: rules of other properties that also decide a clause of this one (see importRules).
+var propImports = map[string][][]string{
+	"C01": {{"C02", "ADMISSIBLE", "CLUSTER"}, {"C11", "KIND", "SIZE", "EXACT-STORE", "ERR"}},
+	"C03": {{"C02", "ADMISSIBLE", "CLUSTER"}},
+	"C06": {{"C10", "BEFORE-COMMANDS"}},
+	"C09": {{"C06", "WALK", "SELECT", "POSITIONAL"}},
+	"C10": {{"C03", "TERMINATOR", "PASSAFTER"}},
+	"C12": {{"C13", "FUNNEL"}},
+	"C16": {{"C17", "UNIT"}},
+	"C17": {{"C16", "ATTR", "MASK"}},
+	"C20": {{"C16", "PRED"}},
+}
+
 var registry = map[string]*Property{}
 
 func register(p *Property) { registry[p.Meta.ID] = p }
@@ -109,6 +122,9 @@ func main() {
 				}
 			}()
 			p.Run(c, r, *tier)
+			for _, imp := range propImports[p.Meta.ID] {
+				c.importRules(r, imp[0], imp[1:]...)
+			}
 			if *auxFile != "" {
 				applyAux(c, r, *auxFile)
 			}
